@@ -3,7 +3,7 @@
    Only statements, `exact`, Print Assumptions and non-vacuity examples live here.
    Reaper passes: copy 0 = cleanup_expired(), copy 1 = the periodic task (`copy_ok copy`). *)
 From Coq Require Import List NArith ZArith Bool.
-From AnyTLS Require Import Generated Pool PoolProofs PoolReuseProofs TimedLegacy.
+From AnyTLS Require Import Generated Pool PoolProofs PoolReuseProofs PoolF2Proofs TimedLegacy.
 Import ListNotations.
 Open Scope Z_scope.
 
@@ -73,6 +73,16 @@ Theorem C12_known_F2_witness :
   p_closed (fst (pool_step cfg0 90000 st PTick)) 0%nat = true.
 Proof. exact C12_known_F2_witness_min_idle_0. Qed.
 Print Assumptions C12_known_F2_witness.
+
+(* the reach of F2 on client histories: whatever a reaper pass closes carries at most ONE stream -- the first stream
+   of a session that was never reused (a reuse takes the session out of the map for good) *)
+Theorem C12_known_F2_reach : forall copy c now h, copy_ok copy ->
+  Forall (fun x => client_op (snd x)) h ->
+  let st := pool_run c pool_init h in
+  forall sid, p_closed st sid = false -> p_closed (pool_reap_step copy c now st) sid = true ->
+    (p_busy st sid <= 1)%N.
+Proof. exact reaper_kills_at_most_first_stream. Qed.
+Print Assumptions C12_known_F2_reach.
 
 (* non-vacuity: three idle sessions, two of them expired, min_idle = 1: the pass keeps the oldest expired one and
    the fresh one, closes the other; counts before/after are 3 and 2 *)
